@@ -27,6 +27,7 @@ import (
 	"strconv"
 	"strings"
 	"sync"
+	"sync/atomic"
 	"syscall"
 	"time"
 )
@@ -43,6 +44,11 @@ type Batch struct {
 	Race bool `json:"race,omitempty"`
 	// Env is extra environment for the worker (e.g. COLORTERM).
 	Env []string `json:"env,omitempty"`
+	// CaseTimeoutS bounds one journaled case (Begin..End) in the worker; when
+	// exceeded the in-worker watchdog reports the case (as a violation if two
+	// stack dumps show the same library frame still running, else as
+	// inconclusive), flushes the results and ends the worker. Default 120.
+	CaseTimeoutS int `json:"case_timeout_s,omitempty"`
 }
 
 // Check is implemented by each property's package.
@@ -94,6 +100,8 @@ type W struct {
 	jfile         *os.File
 	Tier          string
 	maxViolPerKey int
+	lastBegin     int64 // unix nanos of the last Begin, 0 when idle
+	outPath       string
 }
 
 const journalSize = 1 << 20
@@ -121,6 +129,7 @@ func newW(id string, b Batch, tier, journalPath string) *W {
 // Begin records the case about to be executed (cheap: a memory copy into a
 // shared file mapping that survives the death of the process).
 func (w *W) Begin(desc string) {
+	atomic.StoreInt64(&w.lastBegin, time.Now().UnixNano())
 	if w.journal == nil {
 		return
 	}
@@ -136,6 +145,7 @@ func (w *W) Begin(desc string) {
 
 // End marks the journaled case as completed.
 func (w *W) End() {
+	atomic.StoreInt64(&w.lastBegin, 0)
 	if w.journal == nil {
 		return
 	}
@@ -273,6 +283,8 @@ func WorkerMain(c Check, tier string, batchJSON, outPath, journalPath string) {
 		os.Exit(3)
 	}
 	w := newW(c.ID(), b, tier, journalPath)
+	w.outPath = outPath
+	go w.caseWatchdog()
 	func() {
 		defer func() {
 			if r := recover(); r != nil {
@@ -288,6 +300,51 @@ func WorkerMain(c Check, tier string, batchJSON, outPath, journalPath string) {
 	}()
 	w.End()
 	w.flush(outPath)
+}
+
+// caseWatchdog ends the worker when one case runs for too long. The clock is
+// only the trigger: the verdict needs two dumps, taken apart, that show the
+// harness goroutine inside the same library function.
+func (w *W) caseWatchdog() {
+	limit := time.Duration(w.batch.CaseTimeoutS) * time.Second
+	if limit == 0 {
+		limit = 120 * time.Second
+	}
+	for {
+		time.Sleep(500 * time.Millisecond)
+		lb := atomic.LoadInt64(&w.lastBegin)
+		if lb == 0 || time.Since(time.Unix(0, lb)) < limit {
+			continue
+		}
+		d1 := AllStacks()
+		time.Sleep(2 * time.Second)
+		if atomic.LoadInt64(&w.lastBegin) != lb {
+			continue
+		}
+		d2 := AllStacks()
+		f1, blk := harnessGoroutineFrame(d1)
+		f2, _ := harnessGoroutineFrame(d2)
+		desc := w.currentJournal()
+		if f1 != "?" && f1 == f2 {
+			w.ViolationStack("hang:running@"+f1, "a single call into the library did not return: two stack dumps "+"2s apart show the same library function still running", map[string]string{"journal": desc}, "no return after "+limit.String(), "the call returns", blk)
+		} else {
+			w.Inconclusive("case-watchdog-without-corroboration")
+		}
+		w.Count("aborted_batches", 1)
+		w.flush(w.outPath)
+		os.Exit(0)
+	}
+}
+
+// harnessGoroutineFrame finds the goroutine running the check (its stack
+// contains harness.WorkerMain) and returns its innermost vaxis frame.
+func harnessGoroutineFrame(dump string) (string, string) {
+	for _, blk := range strings.Split(dump, "\n\n") {
+		if strings.Contains(blk, "harness.WorkerMain") {
+			return InnermostVaxisFrame(blk), blk
+		}
+	}
+	return "?", ""
 }
 
 func (w *W) currentJournal() string {
